@@ -83,6 +83,16 @@ def _normalise_ifs(stmts: List[ast.stmt]) -> List[ast.stmt]:
             new = type(s)(items=s.items, body=_normalise_ifs(s.body))
             ast.copy_location(new, s)
             out.append(new)
+        elif isinstance(s, ast.Try) and not s.finalbody and rest and s.handlers and all(_always_exits(h.body) for h in s.handlers) \
+                and not any(isinstance(x, ast.Return) for b in s.body for x in ast.walk(b)):
+            # code after a try whose handlers all leave is the try's else clause (neither is protected by the handlers)
+            new = ast.Try(body=_normalise_ifs(s.body), handlers=[ast.ExceptHandler(type=h.type, name=h.name, body=_normalise_ifs(h.body)) for h in s.handlers],
+                          orelse=_normalise_ifs(list(s.orelse) + rest), finalbody=[])
+            ast.copy_location(new, s)
+            for hn, ho in zip(new.handlers, s.handlers):
+                ast.copy_location(hn, ho)
+            out.append(new)
+            return out
         else:
             out.append(s)
     return out
@@ -102,6 +112,8 @@ def _returns_in_tail_only(stmts: List[ast.stmt], tail: bool = True) -> bool:
                 return False
         elif isinstance(s, ast.Try):
             if s.orelse and any(isinstance(x, ast.Return) for b in s.body for x in ast.walk(b)):
+                return False
+            if any(isinstance(x, ast.Return) for b in s.body for x in ast.walk(b)) and not is_last:
                 return False
             parts = [s.body, s.orelse] + [h.body for h in s.handlers]
             if not all(_returns_in_tail_only(p, is_last and not s.finalbody) for p in parts):
@@ -259,9 +271,10 @@ class Inliner:
             if params and not (isinstance(recv, ast.Name) and recv.id == params[0]):
                 mapping[params[0]] = recv
         for p, a in bound.items():
+            if isinstance(a, ast.Name) and a.id == p:
+                continue  # same name on both sides: nothing to bind (a reassignment inside the helper stays local enough for analysis)
             if _simple(a) and p not in assigned:
-                if not (isinstance(a, ast.Name) and a.id == p):
-                    mapping[p] = a
+                mapping[p] = a
             else:
                 new = p if p not in caller_names else f'{p}__{g.name.strip("_")}{self._counter}'
                 if new != p:
@@ -284,7 +297,13 @@ class Inliner:
         if mode == 'assign' and not _always_exits(body) and not any(isinstance(x, ast.Return) for s in body for x in ast.walk(s)):
             # helper returns nothing: x = None
             body = body + [ast.copy_location(ast.Return(value=ast.Constant(value=None)), stmt)]
-        b = self._bind(g, call, caller_names)
+        names_for_collision = set(caller_names)
+        if mode == 'assign' and target is not None:
+            arg_names = {x.id for a in list(call.args) + [k.value for k in call.keywords] for x in ast.walk(a) if isinstance(x, ast.Name)}
+            for t in target:
+                if isinstance(t, ast.Name) and t.id not in arg_names:
+                    names_for_collision.discard(t.id)
+        b = self._bind(g, call, names_for_collision)
         if b is None:
             return None
         pre, mapping, rename = b
